@@ -4,8 +4,6 @@ use std::fmt;
 
 use core::hash::{Hash, Hasher};
 
-use itertools::Itertools;
-
 use rustc_ast::ast::{self, UseTreeKind};
 use rustc_span::{
     BytePos, DUMMY_SP, Span,
@@ -255,12 +253,27 @@ fn flatten_use_trees(
 ) -> Vec<UseTree> {
     // Return non-sorted single occurrence of the use-trees text string;
     // order is by first occurrence of the use-tree.
-    use_trees
+    let mut result: Vec<UseTree> = Vec::new();
+    for tree in use_trees
         .into_iter()
         .flat_map(|tree| tree.flatten(import_granularity))
         .map(UseTree::nest_trailing_self)
-        .unique()
-        .collect()
+    {
+        // `==` compares the paths only: a tree that differs in visibility, or that carries
+        // attributes or a comment, is not a duplicate of an earlier one.
+        let is_duplicate = result.iter().any(|seen| {
+            *seen == tree
+                && seen.same_visibility(&tree)
+                && seen.attrs.is_none()
+                && tree.attrs.is_none()
+                && !seen.has_comment()
+                && !tree.has_comment()
+        });
+        if !is_duplicate {
+            result.push(tree);
+        }
+    }
+    result
 }
 
 impl fmt::Debug for UseTree {
